@@ -1,5 +1,202 @@
 import Driver.Common
-open Driver
+import GIV.Model.ParWork
+import GIV.Model.ParCache
+open GIV Driver
 
-/-- stub: replaced by the group's model driver. -/
-def main : IO Unit := run (fun _ => "bad-op")
+/-!
+  gim_par — replays traces of the instrumented par package in the Lean models.
+
+    work  <n> <init> <graph> <events>      (items are numbers; `-` = empty)
+    cache <programs> <events>
+
+  answer: `ok <summary of the final model state>` or `reject <index of the refused event> <reason>`.
+  A pseudo event `t:B:<ids>` (emitted by the harness at scheduling points) asserts that exactly the
+  listed tasks are alive but have no enabled step.
+-/
+
+def natList (sep : String) (s : String) : Option (List Nat) :=
+  if s == "-" || s == "" then some [] else (s.splitOn sep).mapM String.toNat?
+
+def showNats (l : List Nat) : String := if l.isEmpty then "-" else ",".intercalate (l.map toString)
+
+def lookupChildren (g : List (Nat × List Nat)) (x : Nat) : List Nat :=
+  match g.find? (fun p => p.1 == x) with
+  | some p => p.2
+  | none => []
+
+def parseGraph (s : String) : Option (List (Nat × List Nat)) :=
+  if s == "-" then some [] else
+  (s.splitOn ";").mapM fun part =>
+    match part.splitOn ">" with
+    | [x, cs] => do
+      let x ← x.toNat?
+      let cs ← natList "," cs
+      pure (x, cs)
+    | _ => none
+
+namespace W
+open GIV.ParWork
+
+inductive Item' | ev (t : Nat) (e : Event) | blocked (ids : List Nat)
+
+def parseEvent (s : String) : Option Item' :=
+  match s.splitOn ":" with
+  | [_, "B", ids] => (natList "." ids).map .blocked
+  | t :: rest => do
+    let t ← t.toNat?
+    let e ← match rest with
+      | ["start"] => some Event.start
+      | ["exit"] => some .exit
+      | ["panic"] => some .panic
+      | ["lock"] => some .lock
+      | ["unlock"] => some .unlock
+      | ["wait"] => some .wait
+      | ["wake"] => some .wake
+      | ["sig", "-"] => some (.signal none)
+      | ["sig", w] => w.toNat?.map (fun w => .signal (some w))
+      | ["bc", k] => k.toNat?.map .broadcast
+      | ["rand", l, k] => do pure (.rand (← l.toNat?) (← k.toNat?))
+      | ["fe", x] => x.toNat?.map .fEnter
+      | ["fx", x] => x.toNat?.map .fExit
+      | ["dc", n] => n.toNat?.map .doCall
+      | ["dr"] => some .doReturn
+      | ["go", c] => c.toNat?.map .go
+      | _ => none
+    pure (.ev t e)
+  | [] => none
+
+def showPc (p : Pc) : String := (toString (repr p)).replace "GIV.ParWork." "" |>.replace " " "_"
+
+def tasksBound (c : Cfg) : Nat := max c.n 1
+
+def blockedSet (c : Cfg) (s : State) : List Nat :=
+  (List.range (tasksBound c)).filter fun t =>
+    s.pc t != .absent && s.pc t != .exited && !enabledTask c s t
+
+def run (c : Cfg) : State → Nat → List Item' → Except (Nat × String) State
+  | s, _, [] => .ok s
+  | s, i, .ev t e :: rest =>
+    match step c s t e with
+    | some s' => run c s' (i + 1) rest
+    | none => .error (i, s!"task {t} at {showPc (s.pc t)} cannot do {(toString (repr e)).replace " " "_"}")
+  | s, i, .blocked ids :: rest =>
+    if blockedSet c s == ids then run c s (i + 1) rest
+    else .error (i, s!"blocked set differs: model {showNats (blockedSet c s)} implementation {showNats ids}")
+
+def isFinal (c : Cfg) (s : State) : Bool :=
+  (List.range (tasksBound c)).all fun t => s.pc t == .exited
+
+def summary (c : Cfg) (s : State) : String :=
+  let en := (List.range (tasksBound c)).filter (enabledTask c s)
+  let inF := (List.range (tasksBound c)).filter (fun t => (s.pc t).insideF)
+  s!"final={isFinal c s} enabled={showNats en} calls={showNats s.calls} added={showNats s.added.reverse} todo={showNats s.todo} waiting={s.waiting} running={s.running} owner={match s.owner with | some t => toString t | none => "-"} insideF={showNats inF} pcs={",".intercalate ((List.range (tasksBound c)).map fun t => showPc (s.pc t))}"
+
+def handle (n init graph events : String) : String :=
+  match n.toNat?, natList "," init, parseGraph graph, (if events == "-" then some [] else (events.splitOn "|").mapM parseEvent) with
+  | some n, some init, some g, some evs =>
+    let c : Cfg := { n := n, init := init, children := lookupChildren g }
+    match run c init0 0 evs with
+    | .ok s => "ok " ++ summary c s
+    | .error (i, why) => s!"reject {i} {why}"
+  | _, _, _, _ => "bad-op"
+
+end W
+
+namespace C
+open GIV.ParCache
+
+inductive Item' | ev (t : Nat) (e : Event) | blocked (ids : List Nat)
+
+def parseOp (s : String) : Option Op :=
+  match s.toList with
+  | 'd' :: r => (String.ofList r).toNat?.map .doK
+  | 'g' :: r => (String.ofList r).toNat?.map .getK
+  | _ => none
+
+def parseProg (s : String) : Option (List (List Op)) :=
+  (s.splitOn "|").mapM fun g => if g == "-" || g == "" then some [] else (g.splitOn ";").mapM parseOp
+
+def parseVal (s : String) : Option (Option Val) :=
+  if s == "nil" then some none else
+  match s.splitOn "." with
+  | [k, i] => do pure (some ⟨← k.toNat?, ← i.toNat?⟩)
+  | _ => none
+
+def parseEvent (s : String) : Option Item' :=
+  match s.splitOn ":" with
+  | [_, "B", ids] => (natList "." ids).map .blocked
+  | t :: rest => do
+    let t ← t.toNat?
+    let e ← match rest with
+      | ["start"] => some Event.start
+      | ["exit"] => some .exit
+      | ["dc", k] => k.toNat?.map .doCall
+      | ["dr", k, v] => do pure (.doReturn (← k.toNat?) (← parseVal v))
+      | ["gc", k] => k.toNat?.map .getCall
+      | ["gr", k, v] => do pure (.getReturn (← k.toNat?) (← parseVal v))
+      | ["ml", k, "hit"] => k.toNat?.map (.mapLoad · true)
+      | ["ml", k, "miss"] => k.toNat?.map (.mapLoad · false)
+      | ["mls", k, "loaded"] => k.toNat?.map (.mapLoadOrStore · true)
+      | ["mls", k, "stored"] => k.toNat?.map (.mapLoadOrStore · false)
+      | ["al", k, v] => do pure (.atomicLoad (← k.toNat?) (← v.toNat?))
+      | ["as", k, v] => do pure (.atomicStore (← k.toNat?) (← v.toNat?))
+      | ["lock", k] => k.toNat?.map .lock
+      | ["unlock", k] => k.toNat?.map .unlock
+      | ["fe", k] => k.toNat?.map .fEnter
+      | ["fx", k, v] => do
+        match ← parseVal v with
+        | some v => pure (.fExit (← k.toNat?) v)
+        | none => none
+      | _ => none
+    pure (.ev t e)
+  | [] => none
+
+def showPc (p : Pc) : String :=
+  ((toString (repr p)).replace "GIV.ParCache." "" |>.replace " " "_").replace "\n" ""
+
+def blockedSet (c : Cfg) (nt : Nat) (s : State) : List Nat :=
+  (List.range nt).filter fun t => s.pc t != .exited && !enabledTask c s t
+
+def run (c : Cfg) (nt : Nat) : State → Nat → List Item' → Except (Nat × String) State
+  | s, _, [] => .ok s
+  | s, i, .ev t e :: rest =>
+    match step c s t e with
+    | some s' => run c nt (autoWrite c s' t) (i + 1) rest
+    | none => .error (i, s!"task {t} at {showPc (s.pc t)} cannot do {((toString (repr e)).replace " " "_").replace "\n" ""}")
+  | s, i, .blocked ids :: rest =>
+    if blockedSet c nt s == ids then run c nt s (i + 1) rest
+    else .error (i, s!"blocked set differs: model {showNats (blockedSet c nt s)} implementation {showNats ids}")
+
+def showVal : Option Val → String
+  | none => "nil"
+  | some v => s!"{v.key}.{v.call}"
+
+def keysOf (p : List (List Op)) : List Nat :=
+  (p.flatten.map fun | .doK k => k | .getK k => k).eraseDups
+
+def summary (c : Cfg) (nt : Nat) (keys : List Nat) (s : State) : String :=
+  let en := (List.range nt).filter (enabledTask c s)
+  let fin := (List.range nt).all fun t => s.pc t == .exited
+  let ks := keys.map fun k =>
+    let e := s.key k
+    s!"{k}:alloc={e.alloc},done={e.done},owner={match e.owner with | some t => toString t | none => "-"},result={showVal e.result},fcalls={e.fcalls},fret={showVal e.fret}"
+  s!"final={fin} enabled={showNats en} keys={";".intercalate ks} pcs={",".intercalate ((List.range nt).map fun t => showPc (s.pc t))}"
+
+def handle (prog events : String) : String :=
+  match parseProg prog, (if events == "-" then some [] else (events.splitOn "|").mapM parseEvent) with
+  | some p, some evs =>
+    let c : Cfg := { prog := fun t => match p[t]? with | some l => l | none => [] }
+    match run c p.length (init0 c) 0 evs with
+    | .ok s => "ok " ++ summary c p.length (keysOf p).mergeSort s
+    | .error (i, why) => s!"reject {i} {why}"
+  | _, _ => "bad-op"
+
+end C
+
+def step (line : String) : String :=
+  match line.splitOn " " with
+  | ["work", n, init, graph, events] => W.handle n init graph events
+  | ["cache", prog, events] => C.handle prog events
+  | _ => "bad-op"
+
+def main : IO Unit := run step
